@@ -285,6 +285,7 @@ def seg_harness(ctx, cfg):
 
 def _seg(ctx, cfg):
     global LABELS
+    ctx.allow_realise = True  # labels 0..L
     shape = tuple(cfg["shape"])
     assert len(shape) >= 3, "frames must be 2-D or 3-D (skimage regionprops)"
     L = cfg["labels"]
